@@ -63,19 +63,69 @@ def randomize(lib, m, d, rng):
 
 
 def model_strategy():
-  key = '<keyframe><key name="k0" time="1.5"/><key name="k1" time="0.25"/></keyframe>'
-
-  def addkey(gm):
-    gm.xml = gm.xml.replace('</mujoco>', key + '</mujoco>')
+  """modelgen models + (a) up to 14 extra equalities (eq_active wider than one 8-byte word / one 64-byte block),
+  (b) multi-input actuators (<pid>: 2 controls for one force output, <orientation>: 3 controls) so that nu != nactuator,
+  (c) keyframes whose values are filled in after a first compile (sizes are only known then)."""
+  @st.composite
+  def strat(draw):
+    gm = draw(mg.models(max_bodies=4, mocap=True, userdata=True, sensors=False, equalities=True, actuators=True, tendons=True))
+    xml = gm.xml
+    bodies = gm.info['bodies']
+    neq_extra = draw(st.sampled_from([0, 0, 7, 9, 12, 14]))
+    if neq_extra:
+      eq = ''.join('<connect name="xe%d" body1="%s" anchor="%s" active="%s"/>' % (
+          i, bodies[i % len(bodies)], mg.fmt([0.01 * i, 0, 0]), 'true' if draw(st.booleans()) else 'false') for i in range(neq_extra))
+      xml = xml.replace('</equality>', eq + '</equality>') if '<equality>' in xml else xml.replace('</mujoco>', '<equality>%s</equality></mujoco>' % eq)
+    hs = gm.info['hs_joints']
+    balls = [j for j, t, _ in gm.info['joints'] if t == 'ball']
+    extra_act = ''
+    if hs and draw(st.booleans()):
+      extra_act += '<pid name="xpid" joint="%s" kp="%s" kv="1"/>' % (draw(st.sampled_from(hs)), mg.fmt(draw(mg.num(1, 20, 1))))
+    if balls and draw(st.booleans()):
+      extra_act += '<orientation name="xori" joint="%s" kp="5" kv="1"/>' % draw(st.sampled_from(balls))
+    if extra_act:
+      # multi-input actuators first or last (addresses of the following actuators shift)
+      if '<actuator>' in xml:
+        xml = xml.replace('<actuator>', '<actuator>' + extra_act) if draw(st.booleans()) else xml.replace('</actuator>', extra_act + '</actuator>')
+      else:
+        xml = xml.replace('</mujoco>', '<actuator>%s</actuator></mujoco>' % extra_act)
+    gm.xml = xml.replace('</mujoco>', '@KEYS@</mujoco>')
+    gm.info['keyseed'] = draw(st.integers(0, 1 << 30))
+    gm.info['labels'] = gm.info['labels'] + (['neq>=9'] if neq_extra >= 9 else []) + (['multi-ctrl'] if extra_act else [])
     return gm
-  return mg.models(max_bodies=4, mocap=True, userdata=True, sensors=False, equalities=True, actuators=True,
-                   tendons=True).map(addkey)
+  return strat()
+
+
+def add_keyframes(lib, gm):
+  """Fill @KEYS@ with 3 keyframes carrying random values of the right sizes (sizes from a first compile)."""
+  base = gm.xml.replace('@KEYS@', '')
+  m = lib.model_from_xml(base)
+  rng = np.random.RandomState(gm.info.get('keyseed', 0))
+  keys = ''
+  for k in range(3):
+    a = dict(name='k%d' % k, time=mg.fmt(round(float(rng.uniform(0, 5)), 3)))
+    if m.nq and rng.rand() < 0.8:
+      q = np.array(m.qpos0) + rng.uniform(-0.2, 0.2, m.nq)
+      mg.normalize_quats(m, q)
+      a['qpos'] = ' '.join(repr(float(v)) for v in q)
+    if m.nv and rng.rand() < 0.7:
+      a['qvel'] = ' '.join(repr(float(v)) for v in rng.uniform(-1, 1, m.nv))
+    if m.na and rng.rand() < 0.7:
+      a['act'] = ' '.join(repr(float(v)) for v in rng.uniform(-0.5, 0.5, m.na))
+    if m.nu and rng.rand() < 0.8:
+      a['ctrl'] = ' '.join(repr(float(v)) for v in rng.uniform(-1, 1, m.nu))
+    if m.nmocap and rng.rand() < 0.7:
+      a['mpos'] = ' '.join(repr(float(v)) for v in rng.uniform(-1, 1, 3 * m.nmocap))
+      qq = rng.normal(size=(m.nmocap, 4)); qq /= np.linalg.norm(qq, axis=1, keepdims=True)
+      a['mquat'] = ' '.join(repr(float(v)) for v in qq.ravel())
+    keys += '<key%s/>' % ''.join(' %s="%s"' % kv for kv in a.items())
+  return gm.xml.replace('@KEYS@', '<keyframe>%s</keyframe>' % keys)
 
 
 def check_model(ck, lib, gm, seed, sig_list, exhaustive):
   E = lib.enums
   try:
-    m = lib.model_from_xml(gm.xml)
+    m = lib.model_from_xml(add_keyframes(lib, gm) if '@KEYS@' in gm.xml else gm.xml)
   except Exception as e:
     ck.discard('compile')
     return
@@ -189,9 +239,11 @@ def check_model(ck, lib, gm, seed, sig_list, exhaustive):
     pass
   ck.label('model')
   for l in gm.labels():
-    if l.startswith(('act:', 'eq:', 'mocap')):
+    if l.startswith(('act:', 'eq:', 'mocap', 'neq', 'multi')):
       ck.label(l)
   ck.label('nonempty=%d' % len(nonempty))
+  if m.nu != m.nactuator:
+    ck.label('nu!=nactuator')
 
   # ---- reset
   used = lib.make_data(m)
